@@ -110,6 +110,34 @@ func (c *Ctx) gatedOpCtx(fn *ssa.Function, at ssa.Instruction, v ssa.Value, dept
 		}
 		return "", notGated
 	}
+	// a field of an unexported struct of the package (`op.rc` of a per-operation value): every store to that field anywhere in
+	// the package must itself store a gated operation context
+	if fa, ok := loadAddr(an.Strip(v)).(*ssa.FieldAddr); ok && depth <= 2 {
+		if nt := namedStruct(fa.X.Type()); nt != nil && !nt.Obj().Exported() && nt.Obj().Pkg() != nil && nt.Obj().Pkg().Path() == pipeline.FuncPkgPath(topFn(fn)) {
+			n := 0
+			for _, f2 := range c.moduleFuncs(func(p string) bool { return p == nt.Obj().Pkg().Path() }) {
+				for _, b := range f2.Blocks {
+					for _, in := range b.Instrs {
+						st, ok := in.(*ssa.Store)
+						if !ok {
+							continue
+						}
+						fa2, ok := st.Addr.(*ssa.FieldAddr)
+						if !ok || fa2.Field != fa.Field || namedStruct(fa2.X.Type()) != nt {
+							continue
+						}
+						n++
+						if _, w := c.gatedOpCtx(f2, st, st.Val, depth+1); w != "" {
+							return "", w + " (through field " + nt.Obj().Name() + "." + fieldNameOf(fa) + " stored at " + c.ipos(st) + ")"
+						}
+					}
+				}
+			}
+			if n > 0 {
+				return sprintf("operation context is kept in %s.%s; gated at its %d store(s)", nt.Obj().Name(), fieldNameOf(fa), n), ""
+			}
+		}
+	}
 	// a parameter of an unexported helper
 	var param *ssa.Parameter
 	for _, d := range an.Defs(v) {
